@@ -147,6 +147,8 @@ class Visitor(Generic[Result]):
 
     def visit(self, tp: AnyType) -> Result:
         origin, args = get_origin_or_type(tp), get_args(tp)
+        if origin is TUPLE_TYPE and getattr(tp, "__args__", None) in ((), ((),)):
+            return self.tuple(())  # Tuple[()], the empty tuple, is not a bare Tuple
         if args:
             if is_annotated(tp):
                 return self.annotated(args[0], args[1:])
